@@ -182,6 +182,44 @@ func f8HelperPrograms() []f8prog {
 	return ps
 }
 
+// f8ArgSweep: every assert.* / testing.* function with arguments of every type in every position
+// (arity 0..3, all alike and mixed with the argument the function usually takes first)
+var f8Functions = []string{
+	"assert", "assert.true", "assert.false", "assert.is_notset", "assert.is_json", "assert.equal", "assert.not_equal", "assert.strict_equal", "assert.not_strict_equal",
+	"assert.equal_fold", "assert.match", "assert.not_match", "assert.contains", "assert.not_contains", "assert.starts_with", "assert.ends_with", "assert.subroutine_called",
+	"assert.not_subroutine_called", "assert.restart", "assert.not_restart", "assert.state", "assert.not_state", "assert.error", "assert.not_error",
+	"testing.call_subroutine", "testing.fixed_access_rate", "testing.fixed_time", "testing.get_env", "testing.inject_variable", "testing.inspect", "testing.mock", "testing.override_host",
+	"testing.restore_all_mocks", "testing.restore_mock", "testing.set_backend_health", "testing.table_merge", "testing.table_set",
+}
+
+func f8ArgSweep(quick bool, seed int64) []f8prog {
+	vals := []string{`"helper"`, `""`, "1", "-1", "1.5", "true", "10s", "now", "req.http.Not-Set", "client.ip", "example", "acl1", "tbl", "lookup", "9223372036854775807"}
+	var ps []f8prog
+	n := 0
+	for _, fn := range f8Functions {
+		for vi, v := range vals {
+			forms := []string{fn + "(" + v + ");", fn + "(" + v + ", " + v + ");", fn + "(" + v + ", " + v + ", " + v + ");",
+				fn + `("helper", ` + v + ");", fn + `("helper", ` + v + ", " + v + ");", fn + "(" + v + `, "x");`, fn + `(tbl, "k", ` + v + ");", fn + `("req.http.X", ` + v + ");"}
+			for fi, f := range forms {
+				n++
+				if quick && (vi+fi+int(seed))%4 != 0 {
+					continue
+				}
+				call := f
+				if !strings.HasPrefix(fn, "assert") && fn != "testing.call_subroutine" {
+					// also in value position
+					if n%2 == 0 {
+						call = "log " + strings.TrimSuffix(f, ";") + ";"
+					}
+				}
+				ps = append(ps, f8prog{fn, testSub("recv", `testing.call_subroutine("vcl_recv"); `+call)})
+			}
+		}
+		ps = append(ps, f8prog{fn, testSub("recv", fn+"();")})
+	}
+	return ps
+}
+
 // lastCallee returns the name of the last called function starting with prefix in a statement list.
 func lastCallee(stmts, prefix string) string {
 	i := strings.LastIndex(stmts, prefix)
@@ -224,6 +262,9 @@ func genF8(g *fw.GenCtx, em *emitter, reps []Exec) {
 	// (c) testing.* / assert.* helpers, test-file structure
 	for _, p := range f8HelperPrograms() {
 		em.add(Exec{Fam: "F8", Con: p.con, Mode: "tester", Scope: "RECV", Main: stdDecls + f8MainSubs + mainTail, Test: p.test, Bound: true, Tag: "tester/" + p.con, Iso: true})
+	}
+	for _, p := range f8ArgSweep(g.Quick(), g.Seed) {
+		em.add(Exec{Fam: "F8", Con: p.con, Mode: "tester", Scope: "RECV", Main: stdDecls + f8MainSubs + mainTail, Test: p.test, Bound: true, Tag: "tester/args:" + p.con, Iso: true})
 	}
 	em.flush()
 }
